@@ -172,6 +172,7 @@ def roundtrip_jigg(st, lang, batch, scratch):
                 if cd['problems']:
                     _bad(st, 'jigg_xml', lang, t, ws, 'integrity', f'sentence is not self-contained: {cd["problems"]}')
         ccgs = snode.xpath('./ccg')
+        tok_index = {tok.get('id'): i for i, tok in enumerate(snode.xpath('./tokens/token'))}
         if len(ccgs) != len(lst):
             _bad(st, 'jigg_xml', lang, t, ws, 'numbering', f'{len(ccgs)} ccg elements for {len(lst)} trees')
             continue
@@ -187,7 +188,7 @@ def roundtrip_jigg(st, lang, batch, scratch):
             def conv(e):
                 if e.get('terminal') is not None:
                     term = e.get('terminal')
-                    k = int(term.rsplit('_', 1)[1])
+                    k = tok_index[term]
                     return ('L', e.get('category'), k, (('begin', int(e.get('begin'))), ('end', int(e.get('end')))))
                 return ('T', e.get('category'), (('begin', int(e.get('begin'))), ('end', int(e.get('end'))), ('rule', e.get('rule')))) + tuple(conv(c) for c in e)
             try:
